@@ -4,7 +4,7 @@ from xt import PNode
 XMLID = "{http://www.w3.org/XML/1998/namespace}id"
 
 TAGS = ["a", "b", "c", "d"]
-ATTRS = ["id", "k", "n", XMLID]
+ATTRS = ["id", "k", "n", "ik", XMLID]  # "ik" sorts before "k" and contains it (annotation lists are ;-joined names)
 VALUES = ["1", "2", "v", "x y", "", "1"]
 TEXTS = [
     None,
@@ -118,7 +118,7 @@ def mutate(r, t, steps=None, simple=False):
         elems = [n for n, _ in nodes if n.kind == "e"]
         nonroot = [(n, p) for n, p in nodes if p is not None]
         op = r.choice(
-            ["delete", "insert", "insert", "move", "move", "rename", "retext", "retail", "attr", "attr", "dup", "swap", "cretext"]
+            ["delete", "insert", "insert", "move", "move", "rename", "retext", "retail", "attr", "attr", "attr2", "dup", "swap", "cretext"]
         )
         if op == "delete" and nonroot:
             n, p = r.choice(nonroot)
@@ -166,6 +166,20 @@ def mutate(r, t, steps=None, simple=False):
                 k2 = r.choice(ATTRS)
                 if k2 not in keys:
                     n.attrs = [((k2 if a == k else a), b) for a, b in n.attrs]
+        elif op == "attr2":
+            # two changes of one kind on one node, the later-sorted name contained in the earlier one
+            n = r.choice(elems)
+            d = dict(n.attrs)
+            if "ik" in d and "k" in d:
+                if r.random() < 0.5:
+                    n.attrs = [(a, b) for a, b in n.attrs if a not in ("ik", "k")]
+                else:
+                    v = r.choice([x for x in VALUES if x not in (d["ik"], d["k"])] or ["w"])
+                    n.attrs = [(a, v if a in ("ik", "k") else b) for a, b in n.attrs]
+            elif "ik" not in d and "k" not in d:
+                n.attrs += [("ik", r.choice(VALUES)), ("k", r.choice(VALUES))]
+            elif "id" in d and "ik" in d and "n" not in d and "k" not in d:
+                n.attrs = [({"id": "n", "ik": "k"}.get(a, a), b) for a, b in n.attrs]
         elif op == "dup" and nonroot:
             n, p = r.choice(nonroot)
             if n.size() <= 4:
